@@ -237,6 +237,9 @@ func c16Exclusions(w *World, r *Report) {
 				}
 			case *ssa.Call:
 				h := x.Call.StaticCallee()
+				if h == nil {
+					h = localClosureCallee(x)
+				}
 				if h == nil || d >= 2 || !w.fnSet[h] || w.pkgOf(h) != w.pkgOf(fn) || h == fn || h.Blocks == nil {
 					return
 				}
@@ -266,7 +269,11 @@ func c16Exclusions(w *World, r *Report) {
 					found = true
 				}
 			case *ssa.Call:
-				if h := x.Call.StaticCallee(); h != nil && d < 2 && w.fnSet[h] && w.pkgOf(h) == w.pkgOf(fn) && h != fn && h.Blocks != nil && usesTable(h, d+1) {
+				h := x.Call.StaticCallee()
+				if h == nil {
+					h = localClosureCallee(x)
+				}
+				if h != nil && d < 2 && w.fnSet[h] && w.pkgOf(h) == w.pkgOf(fn) && h != fn && h.Blocks != nil && usesTable(h, d+1) {
 					found = true
 				}
 			}
@@ -303,11 +310,24 @@ func c16Exclusions(w *World, r *Report) {
 	cd := w.Func("sync", "copyDir")
 	check(cd, cd, "copyDir", "copyDir no longer consults excludedPaths")
 	cmp := w.Func("sync", "CompareFS")
-	for i, cl := range cmp.AnonFuncs {
+	// the walk callbacks: the closures handed to fs.WalkDir (other local closures are helpers)
+	var walks []*ssa.Function
+	for _, c := range calls(cmp, false, func(c ssa.CallInstruction) bool { return isStdCall(c, "io/fs.WalkDir") }) {
+		args := c.Common().Args
+		last := stripConv(args[len(args)-1])
+		if mc, ok := last.(*ssa.MakeClosure); ok {
+			if f, ok := mc.Fn.(*ssa.Function); ok {
+				walks = append(walks, f)
+			}
+		} else if f, ok := last.(*ssa.Function); ok {
+			walks = append(walks, f)
+		}
+	}
+	for i, cl := range walks {
 		check(cl, cmp, fmt.Sprintf("walk #%d", i+1), "a walk of CompareFS does not skip the names the copy skips: a faithful copy is reported different")
 	}
-	if len(cmp.AnonFuncs) < 2 {
-		r.Fail("C16-c", fnName(cmp), "two walk callbacks", w.relFile(cmp.Pos()), "CompareFS does not have two walk callbacks")
+	if len(walks) < 2 {
+		r.Fail("C16-c", fnName(cmp), "two walk callbacks", w.relFile(cmp.Pos()), "CompareFS does not walk both trees with fs.WalkDir callbacks")
 	}
 	// the table is only ever indexed: any other use of it (ranging over it to match prefixes, suffixes or substrings)
 	// excludes names the exact table does not list
@@ -552,4 +572,78 @@ func c16CopyShape(w *World, r *Report) {
 		}
 	})
 	r.Check(short, "C16-d", fnName(cof), "short write is an error", w.relFile(cof.Pos()), "", "a short write is not turned into an error")
+}
+
+
+// localClosureCallee: the call invokes a closure that the enclosing function created and this function captured (or
+// holds in a local): `skip := func(..){..}; fs.WalkDir(.., func(..){ skip(..) })`.
+func localClosureCallee(c *ssa.Call) *ssa.Function {
+	var fromValue func(v ssa.Value, d int) *ssa.Function
+	fromValue = func(v ssa.Value, d int) *ssa.Function {
+		if d > 6 || v == nil {
+			return nil
+		}
+		switch x := v.(type) {
+		case *ssa.MakeClosure:
+			f, _ := x.Fn.(*ssa.Function)
+			return f
+		case *ssa.Function:
+			return x
+		case *ssa.UnOp:
+			if x.Op != token.MUL {
+				return nil
+			}
+			// a captured or local cell: the closure stored into it
+			var cell ssa.Value = x.X
+			if fv, ok := cell.(*ssa.FreeVar); ok {
+				cell = freeVarBinding(fv)
+			}
+			if al, ok := cell.(*ssa.Alloc); ok {
+				var found *ssa.Function
+				n := 0
+				for _, ref := range *al.Referrers() {
+					if st, ok := ref.(*ssa.Store); ok && st.Addr == ssa.Value(al) {
+						if f := fromValue(st.Val, d+1); f != nil {
+							found = f
+							n++
+						}
+					}
+				}
+				if n == 1 {
+					return found
+				}
+			}
+		case *ssa.FreeVar:
+			return fromValue(freeVarBinding(x), d+1)
+		}
+		return nil
+	}
+	return fromValue(c.Call.Value, 0)
+}
+
+// freeVarBinding: the value bound to a free variable where its closure was made (nil if not exactly one place).
+func freeVarBinding(fv *ssa.FreeVar) ssa.Value {
+	fn := fv.Parent()
+	idx := -1
+	for i, x := range fn.FreeVars {
+		if x == fv {
+			idx = i
+		}
+	}
+	parent := fn.Parent()
+	if idx < 0 || parent == nil {
+		return nil
+	}
+	var out ssa.Value
+	n := 0
+	allInstrs(parent, func(ins ssa.Instruction) {
+		if mc, ok := ins.(*ssa.MakeClosure); ok && mc.Fn == ssa.Value(fn) && idx < len(mc.Bindings) {
+			out = mc.Bindings[idx]
+			n++
+		}
+	})
+	if n != 1 {
+		return nil
+	}
+	return out
 }
